@@ -147,6 +147,7 @@ func runC19(c *kernel.Ctx) {
 			baton.ReleaseAll()
 			world.Settle()
 			if t.Chance(1, 2) {
+				cl.Latency()
 				cl.Net.Block(cl.Name(0), cl.Name(a), true)
 				c.Fault("partition")
 				c.Logf("partition b0|b%d", a)
